@@ -1,6 +1,8 @@
 package catalog
 
 import (
+	"encoding/json"
+
 	"github.com/jsightapi/jsight-api-go-library/internal/verifrt"
 )
 
@@ -75,4 +77,88 @@ func VerifH_MarshalStable() {
 	_, _ = a.MarshalJSON()
 	verifrt.Assert("C16.marshal.earlier-result-unchanged", string(r2) == keep2)
 	verifrt.Reach("C16.marshal.three-serialisations", len(keep) >= 2 && len(keep2) >= 2)
+}
+
+// ---- C09: the hand-written object rendering of the generated collections ----
+//
+// Every generated collection renders itself as '{' k1 ':' v1 ',' k2 ':' v2 ... '}' from
+// the renderings encoding/json gives for its keys and values, in insertion order. With
+// json.Marshal replaced by a stub returning arbitrary bytes (recorded in call order), the
+// result must be exactly that concatenation: whatever valid JSON the keys and values
+// render to, the collection renders to a valid JSON object with one member per key.
+
+var verifMarshalLog [][]byte
+
+func verifStubJSONMarshalLogged(v interface{}) ([]byte, error) {
+	n := 1 + verifrt.Int("jsonlen", 0, 1)
+	b := verifrt.Bytes("json", n)
+	verifMarshalLog = append(verifMarshalLog, b)
+	return b, nil
+}
+
+func VerifH_MarshalShape() {
+	which := verifrt.Choice("collection", 5)
+	t := verifrt.Bound("T")
+	keys := []string{"a", "b", "c", "d"}[:t]
+	var m verifMarshaler
+	switch which {
+	case 0:
+		c := &Servers{}
+		for _, k := range keys {
+			c.Set(k, &Server{})
+		}
+		m = c
+	case 1:
+		c := &UserTypes{}
+		for _, k := range keys {
+			c.Set(k, &UserType{})
+		}
+		m = c
+	case 2:
+		c := &UserRules{}
+		for _, k := range keys {
+			c.Set(k, &UserRule{})
+		}
+		m = c
+	case 3:
+		c := &Tags{}
+		for _, k := range keys {
+			c.Set(TagName("@"+k), &Tag{Name: TagName("@" + k), Title: k})
+		}
+		m = c
+	default:
+		c := &Interactions{}
+		for _, k := range keys {
+			id := HTTPInteractionID{protocol: HTTP, path: Path("/" + k)}
+			c.Set(id, &HTTPInteraction{Id: id.String()})
+		}
+		m = c
+	}
+	verifMarshalLog = nil
+	got, err := m.MarshalJSON()
+	verifrt.Assert("C09.marshal.no-error", err == nil)
+	if !verifrt.Symbolic() {
+		// natively the real encoding/json renders keys and values: the result must be a valid JSON
+		// object with one member per entry
+		var members map[string]json.RawMessage
+		ok := json.Valid(got) && json.Unmarshal(got, &members) == nil && len(members) == t
+		verifrt.Assert("C09.marshal.object-shape", ok)
+		return
+	}
+	verifrt.Assert("C09.marshal.one-key-and-one-value-per-entry", len(verifMarshalLog) == 2*t)
+	if len(verifMarshalLog) != 2*t {
+		return
+	}
+	want := []byte{'{'}
+	for i := 0; i < t; i++ {
+		if i > 0 {
+			want = append(want, ',')
+		}
+		want = append(want, verifMarshalLog[2*i]...)
+		want = append(want, ':')
+		want = append(want, verifMarshalLog[2*i+1]...)
+	}
+	want = append(want, '}')
+	verifrt.Assert("C09.marshal.object-shape", string(got) == string(want))
+	verifrt.Reach("C09.marshal.rendered", len(got) >= 2)
 }
